@@ -326,6 +326,16 @@ def generate(model: Model):
                 yield "mutant", "revert:shuffle-reduce-default-disk", "R10j", mod.rel, _splice(mod.source, c_, "self.shuffle_method")
     except Exception:  # noqa: BLE001
         pass
+    for _modname, _cname in (("_resample", "ResampleAggregation"), ("_rolling", "RollingAggregation")):
+        try:
+            mod, tree = _fresh(_modname)
+            for cdef in (x for x in tree.body if isinstance(x, ast.ClassDef) and x.name == _cname):
+                for fn in (x for x in cdef.body if isinstance(x, ast.FunctionDef) and x.name == "_meta"):
+                    s_, e_ = _span(mod.source, fn)
+                    bs, _be = _span(mod.source, fn.body[0])
+                    yield "mutant", f"revert:lowered-node-declares-input-schema:{_cname}", "R07f", mod.rel, mod.source[:bs] + "return self.frame._meta\n" + mod.source[e_:]
+        except Exception:  # noqa: BLE001
+            pass
     try:
         mod, tree = _fresh("_repartition")
         for cdef in (x for x in tree.body if isinstance(x, ast.ClassDef) and x.name == "Repartition"):
